@@ -50,13 +50,13 @@ static inline BOOL QVariantHash_isEmpty(QVariantHash self) { return __CPROVER_un
 /* abstract QList<QString> (also QStringList): length only, elements nondeterministic */
 typedef struct { int n; } QList_QString;
 typedef QList_QString QStringList;
-typedef struct { int n; int i; } QList_QString_const_iterator;
+typedef struct { int n; int i; } QList_QString_const_iterator;   /* n: length of the list it iterates */
 typedef QList_QString_const_iterator QList_QString_iterator;
 int nondet_int(void);
 static inline QList_QString QVariantHash_keys(QVariantHash self)
 { QList_QString l; l.n = __CPROVER_uninterpreted_hash_size(self.id); __CPROVER_assume(l.n >= 0); return l; }
-static inline QList_QString_const_iterator QList_QString_begin(QList_QString l) { QList_QString_const_iterator it; it.n = l.n; it.i = 0; return it; }
-static inline QList_QString_const_iterator QList_QString_end(QList_QString l) { QList_QString_const_iterator it; it.n = l.n; it.i = l.n; return it; }
+static inline QList_QString_const_iterator QList_QString_begin_const(QList_QString *l) { QList_QString_const_iterator it; it.n = l->n; it.i = 0; return it; }
+static inline QList_QString_const_iterator QList_QString_end_const(QList_QString *l) { QList_QString_const_iterator it; it.n = l->n; it.i = l->n; return it; }
 static inline BOOL QList_QString_const_iterator_op_ne__QList_QString_const_iterator(QList_QString_const_iterator a, QList_QString_const_iterator b) { return a.i != b.i; }
 static inline QList_QString_const_iterator *QList_QString_const_iterator_op_inc(QList_QString_const_iterator *a) { a->i++; return a; }
 static inline QString QList_QString_const_iterator_op_deref(QList_QString_const_iterator it)
